@@ -33,6 +33,19 @@ func init() {
 					{T: "wrap", F: 1, C: ip(0)}, {T: "join", F: 1, Cs: []*int{ip(0), ip(1)}}, {T: "errorf", F: 0, Format: f, Args: a},
 					{T: "errorf", F: 1, Format: f, Args: a}, {T: "wrapf", F: 0, C: ip(2), Format: f, Args: a}}))
 			}
+			nt := []POpt{{T: "notrace"}}
+			// corpus: a recovered error used as a panic value again (alone, wrapped, behind %w)
+			out = append(out, runC02([]PStmt{
+				{T: "define", Kind: "k1", Opts: nt}, {T: "define", Kind: "k2", Opts: nt},
+				{T: "recover", F: 0, Cb: &PCb{T: "panicVal", Val: 0}}, {T: "wrap", F: 1, C: ip(0)},
+				{T: "recover", F: 1, Cb: &PCb{T: "panicErr", E: ip(1)}}, {T: "recover", F: 0, Cb: &PCb{T: "call", C: &PCb{T: "panicErr", E: ip(0)}}},
+				{T: "fmterrorf", Msg: "w", C: ip(0)}, {T: "recover", F: 1, Cb: &PCb{T: "panicErr", E: ip(4)}}}))
+			// corpus: a factory joining its own earlier join alone (the accumulator idiom), root and derived
+			out = append(out, runC02([]PStmt{
+				{T: "define", Kind: "k1", Opts: nt}, {T: "with", D: 0},
+				{T: "new", F: 0, Msg: "a"}, {T: "new", F: 0, Msg: "b"},
+				{T: "join", F: 0, Cs: []*int{ip(0), ip(1)}}, {T: "join", F: 0, Cs: []*int{ip(2)}}, {T: "join", F: 0, Cs: []*int{nil, ip(2), nil}},
+				{T: "join", F: 1, Cs: []*int{ip(0), ip(1)}}, {T: "join", F: 1, Cs: []*int{ip(5)}}, {T: "join", F: 0, Cs: []*int{ip(5)}}, {T: "join", F: 1, Cs: []*int{ip(2), nil}}}))
 			for i := 0; i < n; i++ {
 				cfg := p1Cfg{MaxStmts: 6 + i*12/n, Keys: p1Keys, Recover: true, Presenters: i%3 == 0}
 				out = append(out, runC02(genProg(r, cfg)))
